@@ -3,6 +3,7 @@ package main
 import (
 	crand "crypto/rand"
 	"fmt"
+	"math/big"
 	"strings"
 
 	crypt "github.com/sergeymakinen/go-crypt"
@@ -83,6 +84,39 @@ func (k *checkCaseSink) add(s *schemeOps, h, pw string, toCoq bool, kind string)
 }
 
 const editAlpha = "$,=_05a./@A"
+
+// numericEdits: for every decimal field of the hash (a digit run delimited by '$', ',' or '=' on the left and by
+// '$', ',' or the end on the right) the spellings of numbers congruent to the written one modulo 2^8, 2^16, 2^32
+// and 2^64, a value just past each width, and an over-long digit string: an out-of-range cost must be rejected,
+// never reduced modulo the field's width.
+func numericEdits(h string) []string {
+	var out []string
+	for i := 0; i < len(h); i++ {
+		if !(h[i] >= '0' && h[i] <= '9') || (i > 0 && !strings.ContainsRune("$,=", rune(h[i-1]))) {
+			continue
+		}
+		j := i
+		for j < len(h) && h[j] >= '0' && h[j] <= '9' {
+			j++
+		}
+		if j < len(h) && h[j] != '$' && h[j] != ',' || j-i > 10 {
+			i = j
+			continue
+		}
+		v, ok := new(big.Int).SetString(h[i:j], 10)
+		if !ok {
+			continue
+		}
+		for _, bits := range []uint{8, 16, 32, 64} {
+			w := new(big.Int).Lsh(big.NewInt(1), bits)
+			out = append(out, h[:i]+new(big.Int).Add(v, w).String()+h[j:])
+			out = append(out, h[:i]+w.String()+h[j:])
+		}
+		out = append(out, h[:i]+strings.Repeat("9", 25)+h[j:])
+		i = j
+	}
+	return out
+}
 
 // edits1 enumerates every string at edit distance 1 (substitution, deletion, insertion) under the alphabet,
 // plus all truncations.
@@ -212,6 +246,9 @@ func corrC06(outDir string, seed uint64, tier string, replay string) *report {
 							judge(h[:pos]+string(al[k])+h[pos+1:], "digest_tail")
 						}
 					}
+				}
+				for _, e := range numericEdits(h) {
+					judge(e, "numeric_overflow")
 				}
 				judge(h+"$", "trailing")
 				judge(h+"$$", "trailing")
